@@ -25,12 +25,12 @@ const (
 )
 
 type poolDef struct {
-	name   string // pkg.global
-	recv   string // Desc of the pool value at Get/Put sites
-	elem   *types.Named
-	newFn  *ssa.Function
-	gets   []ssa.CallInstruction
-	puts   []ssa.CallInstruction
+	name  string // pkg.global
+	recv  string // Desc of the pool value at Get/Put sites
+	elem  *types.Named
+	newFn *ssa.Function
+	gets  []ssa.CallInstruction
+	puts  []ssa.CallInstruction
 }
 
 func discoverPools(c *Ctx) []*poolDef {
@@ -207,13 +207,13 @@ func checkC08(c *Ctx) {
 		c.Bad("R8.1", "pools", "count", token.NoPos, "expected at least 7 pools, discovered %d", len(pools))
 	}
 	wrappers := map[string][2][]string{
-		"go.uber.org/zap/zapcore._jsonPool":                 {{"(*go.uber.org/zap/zapcore.jsonEncoder).clone"}, {"go.uber.org/zap/zapcore.putJSONEncoder"}},
-		"go.uber.org/zap/zapcore._sliceEncoderPool":         {{"go.uber.org/zap/zapcore.getSliceEncoder"}, {"go.uber.org/zap/zapcore.putSliceEncoder"}},
-		"go.uber.org/zap/zapcore._cePool":                   {{"go.uber.org/zap/zapcore.getCheckedEntry"}, {"go.uber.org/zap/zapcore.putCheckedEntry"}},
-		"go.uber.org/zap/zapcore._errArrayElemPool":         {{"go.uber.org/zap/zapcore.newErrArrayElem"}, {"(*go.uber.org/zap/zapcore.errArrayElem).Free"}},
-		"go.uber.org/zap._errArrayElemPool":                 {{"(go.uber.org/zap.errArray).MarshalLogArray"}, {"(go.uber.org/zap.errArray).MarshalLogArray"}},
-		"go.uber.org/zap/internal/stacktrace._stackPool":    {{"go.uber.org/zap/internal/stacktrace.Capture"}, {"(*go.uber.org/zap/internal/stacktrace.Stack).Free"}},
-		"go.uber.org/zap/buffer.Pool.p":                     {{"(go.uber.org/zap/buffer.Pool).Get"}, {"(go.uber.org/zap/buffer.Pool).put"}},
+		"go.uber.org/zap/zapcore._jsonPool":              {{"(*go.uber.org/zap/zapcore.jsonEncoder).clone"}, {"go.uber.org/zap/zapcore.putJSONEncoder"}},
+		"go.uber.org/zap/zapcore._sliceEncoderPool":      {{"go.uber.org/zap/zapcore.getSliceEncoder"}, {"go.uber.org/zap/zapcore.putSliceEncoder"}},
+		"go.uber.org/zap/zapcore._cePool":                {{"go.uber.org/zap/zapcore.getCheckedEntry"}, {"go.uber.org/zap/zapcore.putCheckedEntry"}},
+		"go.uber.org/zap/zapcore._errArrayElemPool":      {{"go.uber.org/zap/zapcore.newErrArrayElem"}, {"(*go.uber.org/zap/zapcore.errArrayElem).Free"}},
+		"go.uber.org/zap._errArrayElemPool":              {{"(go.uber.org/zap.errArray).MarshalLogArray"}, {"(go.uber.org/zap.errArray).MarshalLogArray"}},
+		"go.uber.org/zap/internal/stacktrace._stackPool": {{"go.uber.org/zap/internal/stacktrace.Capture"}, {"(*go.uber.org/zap/internal/stacktrace.Stack).Free"}},
+		"go.uber.org/zap/buffer.Pool.p":                  {{"(go.uber.org/zap/buffer.Pool).Get"}, {"(go.uber.org/zap/buffer.Pool).put"}},
 	}
 	exemptFields := map[string]string{
 		"go.uber.org/zap/internal/stacktrace.Stack.storage": "capacity only: pcs is re-sliced from it in Capture before any read; its old contents are overwritten by runtime.Callers up to the count that is then used",
